@@ -652,7 +652,7 @@ IGXMLScanner::buildAttList(const  RefVectorOf<KVStringPair>&  providedAttrs
                     else
                     {
                         XSSimpleTypeDefinition *memberType = 0;
-                        if(validatingType->getVariety() == XSSimpleTypeDefinition::VARIETY_UNION)
+                        if(validatingType && validatingType->getVariety() == XSSimpleTypeDefinition::VARIETY_UNION)
                             memberType = (XSSimpleTypeDefinition *)fModel->getXSObject(attrValidator);
                         psviAttr->reset
                         (
@@ -895,7 +895,7 @@ IGXMLScanner::buildAttList(const  RefVectorOf<KVStringPair>&  providedAttrs
                         else
                         {
                             XSSimpleTypeDefinition *defAttrMemberType = 0;
-                            if(defAttrType->getVariety() == XSSimpleTypeDefinition::VARIETY_UNION)
+                            if(defAttrType && defAttrType->getVariety() == XSSimpleTypeDefinition::VARIETY_UNION)
                             {
                                 defAttrMemberType = (XSSimpleTypeDefinition *)fModel->getXSObject
                                 (
